@@ -35,7 +35,8 @@ def torn_then_define(args):
             lines = data.split('\n')
             cookie = [l for l in lines if l.startswith('BISTURI_PACKET_COOKIE')][0]
             body = data.replace(cookie + '\n', '')
-            data = LEGACY_HEAD + cookie + '\n' + body[len(LEGACY_HEAD):]
+            # the old writer put the cookie first, under the name it used then
+            data = LEGACY_HEAD + cookie.replace('BISTURI_PACKET_COOKIE_AT_END', 'BISTURI_PACKET_COOKIE') + '\n' + body[len(LEGACY_HEAD):]
         n = min(cut, len(data))
         open(path, 'w').write(data[:n])
         rc2, o2, log2 = cachelib.run_proc(d, [dict(variant=variant), dict(variant=variant)], bytecode=bytecode, tag='after')
@@ -78,7 +79,7 @@ def run(tier, seed, rng):
             if why:
                 failures.append(dict(kind='oracle', sig='crash-define', what=f"after a crash at operation {job[2]} (bytes {job[3]}) of a cache update: {why}", job=list(job)))
     # ---- torn and foreign files left on disk (as the pre-fix in-place writer could leave them)
-    cuts = [0, 1, 40, 130, 131, 180, 181, 185, 300, 700, 1000, 1300, 1436, 1437] if tier == 'quick' else list(range(0, 1500, 7))
+    cuts = [0, 1, 40, 130, 131, 180, 181, 185, 300, 700, 959, 966, 1000, 1300, 1436, 1437] if tier == 'quick' else list(range(0, 1500, 7))
     tjobs = [(layout, c, v, c % 2 == 0) for layout in ('legacy', 'new') for c in cuts for v in ('A', 'C')]
     with ThreadPoolExecutor(max_workers=NPROC) as ex:
         tres = list(ex.map(torn_then_define, tjobs))
